@@ -855,7 +855,7 @@ def describe(spec):
 
 def correspondence(ctx):
     rs = ctx.np_rng("K")
-    n = ctx.n(200, 1200)
+    n = ctx.n(200, 2000)
     specs = corpus_specs() + [gen_spec(rs) for _ in range(n)]
     specs.append(shipped_spec(ctx.n(10, 40)))
     specs.append(shipped_spec(ctx.n(10, 40), pattern="late_end"))
@@ -909,7 +909,7 @@ def correspondence(ctx):
 def oracle(ctx, scale):
     rs = ctx.np_rng("S%d" % scale)
     S = ctx.cov["S"]
-    n = ctx.n(150, 1500) * scale
+    n = ctx.n(150, 3000) * scale
     fails = 0
     hist = {}
     for i in range(n):
